@@ -95,6 +95,10 @@ extern "C" int decompose()
       vf_assert(ext.length() == base.length() - lastDot - 1, "extension: text after the last dot");
       String stemExt = File::getBaseName(p, ext);   // base name without the given extension
       if(!ext.isEmpty()) vf_assert(stemExt.length() + 1 + ext.length() == base.length(), "getBaseName(path, ext) + \".\" + ext == base name");
+      // stem + "." + extension recompose the base name (also with several dots)
+      vf_assert(stem.length() + 1 + ext.length() == base.length(), "stem + \".\" + extension: length of the base name");
+      const char* ps = stem;
+      for(int i = 0; i < lastDot && (usize)i < stem.length(); ++i) vf_assert(ps[i] == pb[i], "stem: the base name up to its last dot");
     }
   }
   vf_reach("end");
